@@ -1,4 +1,108 @@
-import KfacVerif.Model.Alg
+/-
+C01 — the preconditioned gradient solves the damped Kronecker-factored system.
+Exact identities over an arbitrary field `K` (ordered where positivity is needed) and arbitrary
+finite index types (= all layer sizes); the executable rational formulas KV.Alg.* that the
+correspondence compares with the code are bridged to them at `K = ℚ`.
+Property theorems only; helpers in Lemmas/AlgBridge.lean.
+-/
+import KfacVerif.Lemmas.AlgBridge
+import Mathlib.LinearAlgebra.Matrix.NonsingularInverse
+import Mathlib.LinearAlgebra.Matrix.PosDef
+import Mathlib.Analysis.Matrix.PosDef
+import Mathlib.Data.Real.Basic
+import Mathlib.Tactic.FieldSimp
+import Mathlib.Tactic.Ring
+
 namespace KV.C01
-theorem placeholder : (1:Nat) = 1 := rfl
+open Matrix
+
+variable {K : Type*} [Field K] {m n : Type*} [Fintype m] [DecidableEq m] [Fintype n] [DecidableEq n]
+
+/- `eigenPrecond`, `eigenPrecondPre`, `invPrecond` (and `toM`, `toV` below) are defined in
+   Lemmas/AlgBridge.lean under `namespace KV.C01` (moved there verbatim). -/
+
+/-- **eigen method solves `G V A + λ V = D`** with `G = Qg diag(dg) Qgᵀ`, `A = Qa diag(da) Qaᵀ`, for
+    orthogonal `Qg`, `Qa` and non-vanishing denominators -/
+theorem eigen_solves (Qg : Matrix m m K) (Qa : Matrix n n K) (dg : m → K) (da : n → K) (lam : K)
+    (D : Matrix m n K) (hg : Qg * Qgᵀ = 1) (hg' : Qgᵀ * Qg = 1) (ha : Qa * Qaᵀ = 1) (ha' : Qaᵀ * Qa = 1)
+    (hne : ∀ i j, dg i * da j + lam ≠ 0) :
+    (Qg * diagonal dg * Qgᵀ) * eigenPrecond Qg Qa dg da lam D * (Qa * diagonal da * Qaᵀ)
+      + lam • eigenPrecond Qg Qa dg da lam D = D := by
+  exact KV.AlgBridge.eigen_solves_gen Qg Qa dg da lam D hg hg' ha ha' hne
+
+/-- the solution is unique: the system is non-singular -/
+theorem eigen_unique (Qg : Matrix m m K) (Qa : Matrix n n K) (dg : m → K) (da : n → K) (lam : K)
+    (D V : Matrix m n K) (hg : Qg * Qgᵀ = 1) (hg' : Qgᵀ * Qg = 1) (ha : Qa * Qaᵀ = 1) (ha' : Qaᵀ * Qa = 1)
+    (hne : ∀ i j, dg i * da j + lam ≠ 0)
+    (hV : (Qg * diagonal dg * Qgᵀ) * V * (Qa * diagonal da * Qaᵀ) + lam • V = D) :
+    V = eigenPrecond Qg Qa dg da lam D := by
+  exact KV.AlgBridge.eigen_unique_gen Qg Qa dg da lam D V hg hg' ha ha' hne hV
+
+/-- pre-dividing the eigenvalue products gives the same result -/
+theorem eigen_prediv_eq (Qg : Matrix m m K) (Qa : Matrix n n K) (dg : m → K) (da : n → K) (lam : K)
+    (D : Matrix m n K) :
+    eigenPrecondPre Qg Qa (Matrix.of fun i j => 1 / (dg i * da j + lam)) D = eigenPrecond Qg Qa dg da lam D := by
+  exact KV.AlgBridge.eigen_prediv_gen Qg Qa dg da lam D
+
+/-- the denominators never vanish once the eigenvalues are clamped at 0 and the damping is positive
+    (so `eigen_solves` applies to what the code computes, and no division by zero can occur) -/
+theorem denominators_ne {K : Type*} [Field K] [LinearOrder K] [IsStrictOrderedRing K]
+    (x y lam : K) (hl : 0 < lam) : max x 0 * max y 0 + lam ≠ 0 := by
+  exact KV.AlgBridge.denominators_ne_gen x y lam hl
+
+/-- **inverse method solves `(G + λI) V (A + λI) = D`** -/
+theorem inv_solves (G : Matrix m m K) (A : Matrix n n K) (lam : K) (D : Matrix m n K)
+    (hG : IsUnit (G + lam • (1 : Matrix m m K)).det) (hA : IsUnit (A + lam • (1 : Matrix n n K)).det) :
+    (G + lam • 1) * invPrecond (G + lam • 1)⁻¹ (A + lam • 1)⁻¹ D * (A + lam • 1) = D := by
+  exact KV.AlgBridge.inv_solves_gen _ _ D hG hA
+
+theorem inv_unique (G : Matrix m m K) (A : Matrix n n K) (lam : K) (D V : Matrix m n K)
+    (hG : IsUnit (G + lam • (1 : Matrix m m K)).det) (hA : IsUnit (A + lam • (1 : Matrix n n K)).det)
+    (hV : (G + lam • 1) * V * (A + lam • 1) = D) :
+    V = invPrecond (G + lam • 1)⁻¹ (A + lam • 1)⁻¹ D := by
+  exact KV.AlgBridge.inv_unique_gen _ _ D V hG hA hV
+
+/-- a positive semi-definite factor plus positive damping is invertible: the inverse method never
+    meets a singular matrix (factors are PSD by C04) -/
+theorem psd_damped_invertible {m : Type*} [Fintype m] [DecidableEq m] (G : Matrix m m ℝ) (hG : G.PosSemidef)
+    (lam : ℝ) (hl : 0 < lam) : IsUnit (G + lam • (1 : Matrix m m ℝ)).det := by
+  exact KV.AlgBridge.psd_damped_invertible_gen G hG lam hl
+
+/-! ### bridge: the executable rational formulas are these matrix expressions -/
+
+theorem bridge_inverse (g a : ℕ) (ainv ginv grad : KV.Alg.Mat) :
+    toM g a (KV.Alg.invPrecond g a ainv ginv grad) = invPrecond (toM g g ginv) (toM a a ainv) (toM g a grad) := by
+  exact bridge_inverse_gen g a ainv ginv grad
+
+theorem bridge_eigen (g a : ℕ) (qa qg grad : KV.Alg.Mat) (da dg : List ℚ) (lam : ℚ)
+    (hda : da.length = a) (hdg : dg.length = g) :
+    toM g a (KV.Alg.eigenPrecond g a qa da qg dg lam grad) =
+      eigenPrecond (toM g g qg) (toM a a qa) (toV g dg) (toV a da) lam (toM g a grad) := by
+  exact bridge_eigen_gen g a qa qg grad da dg lam hda hdg
+
+theorem bridge_eigen_pre (g a : ℕ) (qa qg dgda grad : KV.Alg.Mat) :
+    toM g a (KV.Alg.eigenPrecondPre g a qa qg dgda grad) =
+      eigenPrecondPre (toM g g qg) (toM a a qa) (toM g a dgda) (toM g a grad) := by
+  exact bridge_eigen_pre_gen g a qa qg dgda grad
+
+/-- `clamp(min=0)` is `max · 0` -/
+theorem clamp0_spec (d : List ℚ) (i : ℕ) (hi : i < d.length) :
+    (KV.Alg.clamp0 d).getD i 0 = max (d.getD i 0) 0 := by
+  exact KV.AlgBridge.clamp0_getD d i hi
+
+/-- write-back: splitting the combined matrix into weight rows and bias and recombining is the
+    identity, in both directions (so `update_grad` leaves exactly `nu • V` in the original layout) -/
+theorem writeback_get_set (w : KV.Alg.Mat) (b : List ℚ) (hb : b.length = w.length) :
+    KV.Alg.setGrad true (KV.Alg.getGrad w (some b)) = (w, some b) ∧
+    KV.Alg.setGrad false (KV.Alg.getGrad w none) = (w, none) := by
+  exact ⟨by
+    have h := KV.AlgBridge.zip_dropLast_getLast w b hb
+    simp only [KV.Alg.setGrad, KV.Alg.getGrad, if_true, h.1, h.2], by simp [KV.Alg.setGrad, KV.Alg.getGrad]⟩
+
+theorem writeback_set_get (grad : KV.Alg.Mat) (hne : ∀ r ∈ grad, r ≠ []) :
+    (let p := KV.Alg.setGrad true grad; KV.Alg.getGrad p.1 p.2) = grad ∧
+    (let p := KV.Alg.setGrad false grad; KV.Alg.getGrad p.1 p.2) = grad := by
+  exact ⟨by simpa [KV.Alg.setGrad, KV.Alg.getGrad] using KV.AlgBridge.zip_recombine grad hne,
+    by simp [KV.Alg.setGrad, KV.Alg.getGrad]⟩
+
 end KV.C01
